@@ -24,6 +24,12 @@ GROUP_DUP_FAULTS = ["duplicate-in-group:dotted-then-braces", "duplicate-in-group
 CALLBACK_FAULTS = ["callback-incompatible-parameter", "callback-surplus-parameter", "callback-unknown-signal",
                    "callback-ill-typed-body"]
 TYPE_FAULTS = ["unknown-object-type", "invalid-object-type"]
+# ill-typed values on the names qmluic reads itself instead of handing them to the generic property pass
+PSEUDO_FAULTS = {"pseudo:rows": ("rows", '"three"'), "pseudo:columns": ("columns", '"three"'), "pseudo:flow": ("flow", "1"),
+                 "pseudo:actions": ("actions", "1"), "pseudo:separator": ("separator", '"yes"'),
+                 "pseudo:attached-row": ("QLayout.row", '"x"'), "pseudo:attached-row-stretch": ("QLayout.rowStretch", '"x"'),
+                 "pseudo:attached-column-span": ("QLayout.columnSpan", '"x"'),
+                 "pseudo:tab-title": ("QTabWidget.toolTip", "1"), "pseudo:contents-margins": ("contentsMargins.left", '"x"')}
 
 
 def decorate(root):
@@ -62,9 +68,21 @@ def decorate(root):
     return markers
 
 
-def plantable(o, is_root):
+def plantable(o, is_root, parent=None):
     kind = c11.KINDS[o.tag][1]
     fs = list(BINDING_FAULTS)
+    if o.cls == "QGridLayout":
+        fs += ["pseudo:rows", "pseudo:columns", "pseudo:flow"]
+    if kind == "layout":
+        fs += ["pseudo:contents-margins"]
+    if kind in ("widget", "menu"):
+        fs += ["pseudo:actions"]
+    # (`separator: "yes"` on an action that has other properties is a dynamic-pass binding: its result type is checked
+    #  by the pass preview mode does not run, see DESIGN 11.4 "observed, not a finding"; not planted)
+    if parent is not None and parent.cls == "QGridLayout" and kind != "sep":
+        fs += ["pseudo:attached-row", "pseudo:attached-row-stretch", "pseudo:attached-column-span"]
+    if parent is not None and parent.cls == "QTabWidget" and kind in ("widget", "menu"):
+        fs += ["pseudo:tab-title"]
     if kind not in ("spacer", "sep"):
         fs += CALLBACK_FAULTS          # every other kind is a QObject: objectNameChanged(QString) exists
     if kind in ("widget", "menu"):
@@ -106,6 +124,10 @@ def plant(o, fault):
         name = {"spacer": "orientation", "layout": "spacing", "sep": "separator"}.get(kind, "toolTip")
         val = {"spacer": "Qt.Horizontal", "layout": "9", "sep": "true"}.get(kind, '"dup"')
         b = qml.B(name, val)
+        o.add(b)
+        return b
+    if fault in PSEUDO_FAULTS:
+        b = qml.B(*PSEUDO_FAULTS[fault])
         o.add(b)
         return b
     if fault in POINTER_FAULTS:
@@ -221,7 +243,7 @@ def cases(tier):
             continue
         decorate(root)
         ps = paths(root)
-        singles = [(p, f) for p in ps for f in plantable(obj_at(root, p), p == ())]
+        singles = [(p, f) for p in ps for f in plantable(obj_at(root, p), p == (), obj_at(root, p[:-1]) if p else None)]
         for pf in singles:
             yield (f"f1/{si}/{k}", root, [pf])
             k += 1
@@ -384,6 +406,16 @@ def _cmp(ef, er, names, ids, path):
     else:
         if [canon(c, ids, False) for c in fp] != [canon(c, ids, False) for c in rp]:
             return f"{here}: properties differ outside the faulted object"
+    if is_faulted and len(fk) != len(rk):
+        # the list of actions is a value of the faulted object itself (its `actions`): it may be lost with the
+        # faulty binding, entry by entry; nothing may be gained and the objects proper stay
+        fa = [c.attrs.get("name") for c in fk if c.tag == "addaction"]
+        ra = [c.attrs.get("name") for c in rk if c.tag == "addaction"]
+        it_ = iter(ra)
+        if not all(any(x == y for y in it_) for x in fa):
+            return f"{here}: faulted object gained or reordered <addaction> entries {fa} vs {ra}"
+        fk = [c for c in fk if c.tag != "addaction"]
+        rk = [c for c in rk if c.tag != "addaction"]
     if len(fk) != len(rk):
         return f"{here}: {len(fk)} child objects vs {len(rk)}"
     for a, b in zip(fk, rk):
